@@ -8,6 +8,7 @@ for f in range(4):
                     clause='2 routines x 3 symbolic steps over {yield, %s ops}' % FAM[f]))
     JOBS.append(Job('scripts.%s.r3s3' % FAM[f], 'C18/coroutine.cpp', 'h_scripts', 'B', defs={'FAMILY': f, 'NR': 3, 'NS': 3}, reach=['scripts'], timeout=3400, tier='thorough',
                     clause='3 routines x 3 symbolic steps over {yield, %s ops}' % FAM[f]))
+JOBS.append(Job('join.cancel', 'C18/coroutine.cpp', 'h_join_cancel', 'B', reach=['join_cancel'], timeout=900, clause='join vs cancel: target created ready or suspended, cancelled after 0-2 loop passes (before its first run / after it started) or not at all: the joiner always returns from join()'))
 JOBS.append(Job('wakeall', 'C18/coroutine.cpp', 'h_wakeall', 'B', reach=['wakeall'], timeout=900, clause='broadcast (0-3 waiters), condition kAll/kAny with early/late posts, join'))
 META = dict(
     explanation='Path-wise symbolic execution (engine/symir.py, z3) of the real coroutine Scheduler and the Channel / Mutex / Semaphore / Condition / Broadcast templates on a fake event loop; getcontext/makecontext/swapcontext are modelled natively (a context is a saved call stack, uc_link honoured). '
